@@ -60,6 +60,13 @@ func (p *Protocol) UnmarshalText(textBytes []byte) error {
 	return nil
 }
 
+// resemblesOption returns whether or not a URL component (a username, hostname,
+// or container identifier) would be interpreted as an option if it appeared on
+// the command line of a transport executable (ssh, scp, or docker).
+func resemblesOption(component string) bool {
+	return component != "" && component[0] == '-'
+}
+
 // EnsureValid ensures that URL's invariants are respected.
 func (u *URL) EnsureValid() error {
 	// Ensure that the URL is non-nil.
@@ -93,6 +100,8 @@ func (u *URL) EnsureValid() error {
 			return errors.New("SSH URL with invalid port")
 		} else if len(u.Environment) != 0 {
 			return errors.New("SSH URL with environment variables")
+		} else if resemblesOption(u.User) || resemblesOption(u.Host) {
+			return errors.New("SSH URL with username or hostname that resembles a command line option")
 		}
 	} else if u.Protocol == Protocol_Docker {
 		// In the case of Docker, we intentionally avoid validating environment
@@ -104,6 +113,8 @@ func (u *URL) EnsureValid() error {
 			return errors.New("Docker URL with empty container identifier")
 		} else if u.Port != 0 {
 			return errors.New("Docker URL with non-zero port")
+		} else if resemblesOption(u.User) || resemblesOption(u.Host) {
+			return errors.New("Docker URL with username or container identifier that resembles a command line option")
 		}
 	} else {
 		return errors.New("unknown or unsupported protocol")
